@@ -52,7 +52,7 @@ def run(res):
     # the same theorems (and C01-C03) over joint histories of the whole node, where the payment verdict of a
     # commitment update is computed from the ledger and the enforcement verdict from the counters
     lib.extra_props_stage(res, "Joint.v", ["J_C01_secret_needs_successor", "J_C02_signed_and_revoked_disjoint",
-                                          "J_C03_resign_same", "J_C06_no_overpay", "J_revoke_needs_payment_check", "J_C10_refused_changes_nothing", "J_nonvacuous"])
+                                          "J_C03_resign_same", "J_C06_no_overpay", "J_revoke_needs_payment_check", "J_C10_refused_changes_nothing", "J_C11_restart_is_invisible", "J_nonvacuous"])
     cov = res.coverage
     n = 150 if quick else 1500
     r = lib.run_harness("pay", "run", res.seed, n, res.tier, timeout=3000)
